@@ -63,7 +63,9 @@ pub fn main() -> Result<()> {
 }
 
 fn codegen(input: String) -> Result<String> {
+    // Like rustc, read a CRLF line break as `\n` (it matters inside string literals)
     let input_tokens: TokenStream = input
+        .replace("\r\n", "\n")
         .parse()
         .map_err(|err: LexError| anyhow::Error::msg(err.to_string()))
         .context("failed to parse input as Rust code")?;
